@@ -351,7 +351,7 @@ async fn run_creds(case: &Value) -> Value {
         Tr::Tls => {
             let dir = peers::fixtures().join("pki");
             let der = secrets::pem_der(&std::fs::read(dir.join(&key_file)).unwrap_or_default());
-            let public: Vec<Vec<u8>> = ["ca.crt", "other-ca.crt", "server.crt", "client.crt", "client-rsa.crt"].iter().map(|c| secrets::pem_der(&std::fs::read(dir.join(c)).unwrap_or_default())).collect();
+            let public: Vec<Vec<u8>> = peers::PUBLIC_CERTS.iter().map(|c| secrets::pem_der(&std::fs::read(dir.join(c)).unwrap_or_default())).collect();
             for (k, seg) in secrets::sensitive_segments(&der, &public).into_iter().enumerate() {
                 secrets_list.push((format!("tls-client-key:der-segment-{k}"), seg));
             }
